@@ -148,6 +148,9 @@ fn tweaks() -> impl Strategy<Value = Tweaks> {
         1 => (0u8..3, 0u8..6, prop_oneof![Just(u64::MAX), Just(1u64 << 63), Just((1u64 << 63) - 1)]).prop_map(|(p, n, q)| Tweaks { phantom_assets: vec![(p, n, q)], ..Default::default() }),
         1 => (0u8..3, 0u8..6, prop_oneof![Just(i64::MIN), Just(i64::MAX), Just(-1i64)]).prop_map(|(p, n, q)| Tweaks { unbalanced_mint: vec![(p, n, q)], ..Default::default() }),
         1 => any::<i64>().prop_map(|d| Tweaks { change_delta: d, ..Default::default() }),
+        // degenerate but balanced shapes
+        1 => Just(Tweaks { no_outputs: true, ..Default::default() }),
+        1 => Just(Tweaks { zero_coin_output: true, ..Default::default() }),
     ]
 }
 
